@@ -113,7 +113,8 @@ def plan(tier):
     # ~70 statements against the shared directory)
     for w in (SET_FILE, ('set', 'c', 1, None, None), POP, DELETE, INCR):
         units.append(([[('open',)], [w]], 'file' if w is not INCR
-                      else 'inline', 'own', MFS, 2))
+                      else 'inline', 'own', MFS,
+                      1 if tier == 'quick' else 2))
     if tier == 'thorough':
         writes = [SET_INLINE, SET_FILE, ADD, INCR, POP, DELETE]
         reads = [GET, CONTAINS, LEN]
